@@ -27,6 +27,10 @@ FULLY_SWEPT = [
        [1, 0, 1, 0, 1, 0, 3, 0, 0, 0], ["answer", "inject", "advance", "alrm"]),
     fx([{"sender": "s@rem.example", "rcpts": ["joe@loc.example", "ann@loc.example", "joe@loc.example"], "body": "x\n"}], {"0:0": "ZK", "0:1": "K", "0:2": "ZZK"},
        [3, 0, 0, 0, 2, 0, 0, 0, 6, 0], ["answer", "inject", "advance", "alrm", "term"], limits=(2, 120)),
+    # a deferred message on both channels is read back at the next start, where every call (the stat()s of the start-up scan among them) fails
+    # once; then the clock passes the 123 s system-failure retry and the retry times (added after seeded change C04-I)
+    dict(fx([{"sender": "s@rem.example", "rcpts": ["joe@loc.example", "r@rem.example"], "body": "x\n"}], {"0:0": "ZZK", "0:1": "ZZK"},
+            [], ["answer", "inject", "advance", "term"]), plan=["inject", "answer", "answer", "term", "advance_part:130", "advance_part:300"]),
 ]
 
 
@@ -48,9 +52,9 @@ WIDE = [
 
 
 def run(ctx):
-    q.search(ctx, "C04", TAGS, 0, 0, sweep={"all": True, "kept_only": True}, fixed=FULLY_SWEPT)
+    q.search(ctx, "C04", TAGS, 0, 0, sweep={"all": True, "kept_only": True, "restarts": True}, fixed=FULLY_SWEPT)
     q.search(ctx, "C04", TAGS, 0, 0, fixed=WIDE)
-    q.search(ctx, "C04", TAGS, 50, 700, sweep={"crash_kept": 4, "fault": 3})
+    q.search(ctx, "C04", TAGS, 50, 700, sweep={"crash_kept": 4, "fault": 3, "restarts": True})
 
 
 def replay(ctx, path):
